@@ -876,6 +876,9 @@ func genC13(r *R, n int, tier string, out *Out) {
 		switch cc := c.(type) {
 		case at.List:
 			export2 = cc.NativeSlice()
+			if !deepEqualNaN(export2, t.toNative()) {
+				f.fail("a second NativeSlice, taken after the first export was modified by its owner, is not deep-equal to the container's content")
+			}
 			e0 := fromNative(export2).canon()
 			cc.Add(1).Reverse()
 			if cc.Count() > 1 {
@@ -886,6 +889,9 @@ func genC13(r *R, n int, tier string, out *Out) {
 			}
 		case at.Object:
 			export2 = cc.NativeDict()
+			if !deepEqualNaN(export2, t.toNative()) {
+				f.fail("a second NativeDict, taken after the first export was modified by its owner, is not deep-equal to the container's content")
+			}
 			e0 := fromNative(export2).canon()
 			cc.Set("zz-added", 1)
 			for _, kv := range t.O {
